@@ -76,9 +76,10 @@ def mk_type(t):
 
 # ----------------------------------------------------------------------------- generator (descriptions only)
 class G:
-    def __init__(self, rnd, weird):
+    def __init__(self, rnd, weird, named=False):
         self.r = rnd
         self.weird = weird      # probability of an unusual identifier / text
+        self.named = named      # every constraint / index gets a name (conventions with %(constraint_name)s need one)
 
     def name(self):
         r = self.r
@@ -93,7 +94,7 @@ class G:
 
     def cname(self):
         x = self.r.random()
-        if x < .25:
+        if x < .25 and not self.named:
             return None
         if x < .45:
             return {"conv": "cv_" + self.name()}
@@ -175,10 +176,23 @@ class G:
             n = r.randint(1, 3)
             exprs, seen = [], set()
             for _ in range(n):
-                e = {"col": self.name()} if r.random() < .75 else {"expr": r.choice(["lower(name)", "a + 1", "coalesce(x, 'it''s')"])}
+                y = r.random()
+                if y < .6:
+                    e = {"col": self.name()}
+                elif y < .75:
+                    e = {"expr": r.choice(["lower(name)", "a + 1", "coalesce(x, 'it''s')"])}          # text()
+                elif y < .9:
+                    e = {"lit": r.choice(["lower(code)", "code", "a || b", "upper(name)"])}              # literal_column()
+                else:
+                    e = {"colclause": r.choice(PLAIN)}                                                  # column(): no table
                 if repr(e) not in seen:
                     seen.add(repr(e))
                     exprs.append(e)
+            if self.named and not any("col" in e for e in exprs):
+                # an index over a bare column() only keeps a plain name under a convention with %(constraint_name)s, while the
+                # rendered code names the column by a string and gets the convention applied
+                # (finding C08-convention-applied-to-expression-only-index); every index gets a table column here
+                exprs.insert(0, {"col": self.name()})
             return {"k": kind, "name": self.cname() or {"plain": "ix_" + self.name()}, "exprs": exprs, "unique": r.choice([False, True]),
                     "if_x": r.choice([None, None, True, False])}
         if kind == "create_unique":
@@ -215,9 +229,9 @@ def no_enum(t):
 
 def gen_case(rnd, k):
     weird = [0.0, 0.3, 0.7, 1.0][k % 4]
-    g = G(rnd, weird)
+    nc = (k // 8) % 3
+    g = G(rnd, weird, named=(nc == 2))
     cfg = {"op": "aop" if k % 5 == 0 else "op", "sa": "sqla" if k % 7 == 0 else "sa", "batch": (k // 4) % 2 == 1}
-    nc = (k // 8) % 2 == 1
     ops = []
     for _ in range(rnd.randint(1, 3)):
         x = rnd.random()
@@ -235,9 +249,9 @@ def gen_case(rnd, k):
 
 def gen_single(rnd, kind, k):
     """one operation of a given kind, so that every kind x identifier class x schema x nc x batch occurs"""
-    g = G(rnd, [0.0, 0.5, 1.0][k % 3])
+    nc = (k // 6) % 3
+    g = G(rnd, [0.0, 0.5, 1.0][k % 3], named=(nc == 2))
     cfg = {"op": "op", "sa": "sa", "batch": (k // 3) % 2 == 1}
-    nc = (k // 6) % 2 == 1
     schema = [None, "sch", g.name()][(k // 12) % 3]
     if kind == "create_table":
         t = g.table()
@@ -254,7 +268,8 @@ def gen_single(rnd, kind, k):
 
 FINDING_IDS = ["C08-server-default-quote-strip", "C08-quoted-name-flag-lost",
                "C08-add-column-primary-key-lost", "C08-drop-table-enum-type",
-               "C08-mysql-functional-index-parens", "C08-percent-doubled-in-sql-expressions"]
+               "C08-mysql-functional-index-parens", "C08-percent-doubled-in-sql-expressions",
+               "C08-convention-applied-to-expression-only-index"]
 
 
 def registered():
@@ -287,6 +302,10 @@ def finding_cases(reg):
         out.append({"stream": "A", "cfg": cfg, "nc": False, "finding": "C08-drop-table-enum-type",
                     "ops": [{"k": "drop_table", "table": {"name": "t", "schema": None, "cols": [col(type=("Enum", ["a", "b"]))], "cons": [],
                                                           "comment": None, "prefixes": [], "if_not_exists": None}, "if_exists": None}]})
+    if "C08-convention-applied-to-expression-only-index" in reg:
+        out.append({"stream": "A", "cfg": cfg, "nc": 2, "finding": "C08-convention-applied-to-expression-only-index",
+                    "ops": [{"k": "modify", "table": "t", "schema": None,
+                             "ops": [{"k": "drop_index", "name": {"plain": "ix1"}, "exprs": [{"colclause": "x"}], "unique": False, "if_x": None}]}]})
     if "C08-percent-doubled-in-sql-expressions" in reg:
         out.append({"stream": "B", "cfg": cfg, "nc": False, "finding": "C08-percent-doubled-in-sql-expressions", "b": "pct_default"})
     if "C08-add-column-primary-key-lost" in reg:
@@ -294,7 +313,7 @@ def finding_cases(reg):
     return out
 
 
-B_KINDS = ["identity", "func_index", "pg_index_opts", "mysql_table_opts", "bool_enum_constraints", "label_index", "variant",
+B_KINDS = ["lit_index", "cast_index", "identity", "func_index", "pg_index_opts", "mysql_table_opts", "bool_enum_constraints", "label_index", "variant",
            "array", "col_unique_index_flags_table", "fk_schema_nc", "drop_index_opts", "computed"]
 
 
@@ -311,7 +330,7 @@ def generate(tier, seed):
     for k in range(n):
         yield gen_case(rnd, k)
     for b in B_KINDS:
-        if b == "func_index" and "C08-mysql-functional-index-parens" not in reg:
+        if b in ("func_index", "cast_index") and "C08-mysql-functional-index-parens" not in reg:
             continue
         for k in range(6 if tier == "quick" else 40):
             # a percent sign inside a rendered SQL expression is doubled on pyformat dialects (finding
@@ -400,7 +419,7 @@ def _constraint(k):
 
 def _metadata(nc):
     import sqlalchemy as sa
-    return sa.MetaData(naming_convention=L.NC) if nc else sa.MetaData()
+    return sa.MetaData(naming_convention=L.nc_of(nc)) if nc else sa.MetaData()
 
 
 def _parents(m, cons):
@@ -468,7 +487,8 @@ def _tblop(o, tname, schema, nc, q=None):
     if k in ("create_index", "drop_index"):
         cols = [e["col"] for e in o["exprs"] if "col" in e]
         t = _holder(tname, schema, nc, cols)
-        exprs = [t.c[e["col"]] if "col" in e else sa.text(e["expr"]) for e in o["exprs"]]
+        exprs = [t.c[e["col"]] if "col" in e else sa.text(e["expr"]) if "expr" in e else
+                 sa.literal_column(e["lit"]) if "lit" in e else sa.column(e["colclause"]) for e in o["exprs"]]
         idx = sa.Index(_cn(o["name"]), *exprs, unique=o["unique"], _table=t) if not cols else sa.Index(_cn(o["name"]), *exprs, unique=o["unique"])
         if k == "create_index":
             op = ops.CreateIndexOp.from_index(idx)
@@ -539,6 +559,15 @@ def build_b(h):
         t = sa.Table(tn, m, sa.Column(c1, sa.String(10)), sa.Column(c2, sa.Integer))
         ix = sa.Index("ix_f", sa.func.lower(t.c[c1]), t.c[c2])
         return [ops.CreateIndexOp.from_index(ix)]
+    if b == "lit_index":
+        # bare literal_column() / column() (ColumnClause without a table) next to a table column and a DESC modifier
+        t = sa.Table(tn, m, sa.Column(c1, sa.String(10)), sa.Column(c2, sa.Integer))
+        ix = sa.Index("ix_lit", sa.literal_column("lower(code)"), t.c[c1], sa.column("plaincol"), t.c[c2].desc())
+        return [ops.CreateIndexOp.from_index(ix), ops.DropIndexOp.from_index(ix)]
+    if b == "cast_index":
+        t = sa.Table(tn, m, sa.Column(c1, sa.String(10)), sa.Column(c2, sa.Integer))
+        ix = sa.Index("ix_cast", sa.cast(t.c[c2], sa.String(5)), sa.func.coalesce(t.c[c1], "x"), sa.literal_column("code"))
+        return [ops.CreateIndexOp.from_index(ix), ops.DropIndexOp.from_index(ix)]
     if b == "label_index":
         t = sa.Table(tn, m, sa.Column(c1, sa.String(10)))
         ix = sa.Index("ix_l", sa.func.lower(t.c[c1]).label("lbl"))
@@ -587,7 +616,7 @@ def build_b(h):
 
 
 # ----------------------------------------------------------------------------- one case
-OPAQUE_IN = "(mkCfg [111;112] [115;97] false, [TOp (mkId [] (Some true)) None (ODropTableComment None)])"   # outside inclass_C08
+OPAQUE_IN = "(mkCfg [111;112] [115;97] false false, [TOp (mkId [] (Some true)) None (ODropTableComment None)])"   # outside inclass_C08
 
 
 def run_case(h):
@@ -597,7 +626,15 @@ def run_case(h):
     warnings.simplefilter("ignore")
     cfg = h["cfg"]
     real = build_b(h) if h["stream"] == "B" else build_ops(h)
-    code = L.render_for(real, cfg)
+    try:
+        code = L.render_for(real, cfg)
+    except Exception as e:       # the renderer itself raises: no valid Python was produced (class is the observable)
+        out = {"code": None, "syntax_ok": False, "sql_same": False, "render_exception": type(e).__name__}
+        if h["stream"] == "B":
+            return dict(cin=OPAQUE_IN, cout="(mkOut None None false)", out=out, nontrivial=False, shape="B:" + h["b"])
+        absops = [L.canon_abs(L.a_top(o)) for o in real]
+        return dict(cin="(%s, %s)" % (L.e_cfg(cfg, h["nc"]), L.lst(absops, L.e_top)), cout="(mkOut None None false)", out=out,
+                    nontrivial=False, shape="render-exception")
     try:
         compile("def f():\n" + code + "\n", "<rendered>", "exec")
         syntax_ok = True
@@ -615,7 +652,7 @@ def run_case(h):
         cout = "(mkOut %s None %s)" % ("(Some [])" if syntax_ok else "None", L.b(same))
         return dict(cin=OPAQUE_IN, cout=cout, out=out, nontrivial=syntax_ok, shape="B:" + h["b"])
     absops = [L.canon_abs(L.a_top(o)) for o in real]
-    cin = "(%s, %s)" % (L.e_cfg(cfg), L.lst(absops, L.e_top))
+    cin = "(%s, %s)" % (L.e_cfg(cfg, h["nc"]), L.lst(absops, L.e_top))
     parsed = L.parse_code(code) if syntax_ok else None
     ex = None
     if captured is not None:
@@ -628,14 +665,14 @@ def run_case(h):
         else:
             kinds.add(o["op"]["k"] if o["k"] == "top" else o["k"])
     kinds = sorted(kinds)
-    shape = "%s%s:%s" % ("batch" if cfg["batch"] else "plain", "+nc" if h["nc"] else "", kinds[0] if len(kinds) == 1 else "mixed")
+    shape = "%s%s:%s" % ("batch" if cfg["batch"] else "plain", ["", "+nc", "+nc2"][int(h["nc"])], kinds[0] if len(kinds) == 1 else "mixed")
     return dict(cin=cin, cout=cout, out=out, nontrivial=bool(parsed) and captured is not None and len(captured) > 0, shape=shape)
 
 
 def classify(h, out):
     if h.get("finding"):
         return h["finding"]
-    if h.get("b") == "func_index":
+    if h.get("b") in ("func_index", "cast_index") and set((out or {}).get("sql_diff", {})) <= {"mysql"}:
         return "C08-mysql-functional-index-parens"
     if h.get("stream") == "B" and any("%" in n for n in h.get("names", [])):
         return "C08-percent-doubled-in-sql-expressions"
